@@ -28,6 +28,7 @@ import (
 	"pgregory.net/rapid"
 	"verifsim/drv"
 	"verifsim/sim"
+	"verifsim/simrt"
 )
 
 type c20Writer struct {
@@ -468,7 +469,7 @@ func runC20(t *testing.T, c c20Case, st *drv.Stats) (fail *drv.Failure) {
 							return nil
 						}
 						if w.PaceNS > 0 {
-							time.Sleep(time.Duration(w.PaceNS))
+							time.Sleep(simrt.UniqueDur(time.Duration(w.PaceNS)))
 						}
 					}
 					if w.NoAuto {
@@ -507,7 +508,7 @@ func runC20(t *testing.T, c c20Case, st *drv.Stats) (fail *drv.Failure) {
 				tasks.Go("interloper"+strconv.Itoa(il.ID), func() error {
 					defer phaseB.Done()
 					if il.OpenAfterNS > 0 {
-						time.Sleep(time.Duration(il.OpenAfterNS))
+						time.Sleep(simrt.UniqueDur(time.Duration(il.OpenAfterNS)))
 					}
 					sim.Yield(sim.ClassTask, "interloper"+strconv.Itoa(il.ID)+" open")
 					oc := s.stamp()
@@ -525,7 +526,7 @@ func runC20(t *testing.T, c c20Case, st *drv.Stats) (fail *drv.Failure) {
 					s.mu.Lock()
 					s.ctl = append(s.ctl, c20Ctl{chans: il.Chans, writer: il.ID, kind: "open", auth: il.Auth, call: oc, ret: or})
 					s.mu.Unlock()
-					time.Sleep(time.Duration(il.HoldNS))
+					time.Sleep(simrt.UniqueDur(time.Duration(il.HoldNS)))
 					sim.Yield(sim.ClassTask, "interloper"+strconv.Itoa(il.ID)+" close")
 					cc := s.stamp()
 					err = cw.Close()
@@ -562,7 +563,7 @@ func runC20(t *testing.T, c c20Case, st *drv.Stats) (fail *drv.Failure) {
 						return nil
 					}
 					if vw.OpenAfterNS > 0 {
-						time.Sleep(time.Duration(vw.OpenAfterNS))
+						time.Sleep(simrt.UniqueDur(time.Duration(vw.OpenAfterNS)))
 					}
 					sim.Yield(sim.ClassTask, "vwriter"+strconv.Itoa(vw.ID)+" open")
 					oc := s.stamp()
@@ -614,7 +615,7 @@ func runC20(t *testing.T, c c20Case, st *drv.Stats) (fail *drv.Failure) {
 							}
 						}
 						if vw.PaceNS > 0 {
-							time.Sleep(time.Duration(vw.PaceNS))
+							time.Sleep(simrt.UniqueDur(time.Duration(vw.PaceNS)))
 						}
 					}
 					sim.Yield(sim.ClassTask, "vwriter"+strconv.Itoa(vw.ID)+" close")
@@ -658,7 +659,7 @@ func runC20(t *testing.T, c c20Case, st *drv.Stats) (fail *drv.Failure) {
 						s.recvs = append(s.recvs, rc)
 						s.mu.Unlock()
 						if sp.SleepNS > 0 {
-							time.Sleep(time.Duration(sp.SleepNS))
+							time.Sleep(simrt.UniqueDur(time.Duration(sp.SleepNS)))
 						}
 						sim.Yield(sim.ClassTask, "consumer"+strconv.Itoa(sp.ID)+" next")
 					}
@@ -686,7 +687,7 @@ func runC20(t *testing.T, c c20Case, st *drv.Stats) (fail *drv.Failure) {
 									// blocked on something real, so the streamer has taken
 									// the request by the time this sleep returns
 									idx := len(s.subs[sp.ID]) - 1
-									time.Sleep(time.Millisecond)
+									time.Sleep(simrt.UniqueDur(time.Millisecond))
 									e := s.stamp()
 									s.mu.Lock()
 									s.subs[sp.ID][idx].eff = e
